@@ -23,6 +23,16 @@ Theorem C06_kcd_position_roundtrip : forall p, pos_ok p -> kcd_read_pos (kcd_wri
 Proof. exact kcd_position_roundtrip. Qed.
 Print Assumptions C06_kcd_position_roundtrip.
 
+(* whether a KCD writer leaves the length of a one bit signal to the schema default or states it is not constrained by the
+   property: the reader stores the same signal, and the explicit form round-trips for every width too *)
+Theorem C06_kcd_length_default_equivalent : forall s b, kcd_read_pos [s; -1; b] = kcd_read_pos [s; 1; b].
+Proof. exact kcd_length_default_equivalent. Qed.
+Print Assumptions C06_kcd_length_default_equivalent.
+
+Theorem C06_kcd_explicit_length_roundtrip : forall p, pos_ok p -> kcd_read_pos (kcd_write_pos_explicit p) = Some p.
+Proof. exact kcd_explicit_position_roundtrip. Qed.
+Print Assumptions C06_kcd_explicit_length_roundtrip.
+
 (* the KCD Multiplex element has no endianess attribute: the multiplexer must be Intel (envelope of the format) *)
 Theorem C06_kcd_multiplexer_position_roundtrip :
   forall p, pos_ok p -> p_le p = true -> kcd_read_mux_pos (kcd_write_mux_pos p) = Some p.
